@@ -290,7 +290,11 @@ func main() {
 	if th {
 		maxLen = 2300
 	}
+	lens := []int{65535, 65536, 65537, 1 << 17} // and a few far beyond: no upper limit on a message
 	for L := 0; L <= maxLen; L++ {
+		lens = append(lens, L)
+	}
+	for _, L := range lens {
 		m := make([]byte, L)
 		for i := range m {
 			m[i] = byte(i*31 + L)
